@@ -1,5 +1,6 @@
 pub mod cache;
 pub mod chunker;
+pub mod crash;
 pub mod flight;
 pub mod recon;
 pub mod session;
@@ -9,7 +10,7 @@ pub mod xorb;
 use crate::core::Engine;
 
 pub fn all() -> Vec<&'static dyn Engine> {
-    vec![&chunker::ChunkerEngine, &session::SessionEngine, &flight::FlightEngine, &cache::CacheEngine, &shard::ShardEngine, &xorb::XorbEngine, &recon::ReconEngine]
+    vec![&chunker::ChunkerEngine, &session::SessionEngine, &flight::FlightEngine, &cache::CacheEngine, &shard::ShardEngine, &xorb::XorbEngine, &recon::ReconEngine, &crash::CrashEngine]
 }
 
 pub fn for_property(id: &str) -> Option<&'static dyn Engine> {
